@@ -2,6 +2,7 @@ package main
 
 import (
 	"fmt"
+	"go/token"
 	"strings"
 
 	"golang.org/x/tools/go/ssa"
@@ -192,10 +193,38 @@ func countAtom(v *Val, counter string, op string, aff string, neg bool) bool {
 // runC05Shortcuts: walkover and nobody-can-move short-cuts.
 func runC05Shortcuts(c *Ctx, ea *engineAnchors, eg *EventGraph) {
 	p := c.P
-	alive := "pokerface.(*game).GetAlivePlayerCount(recv)"
-	mov := "pokerface.(*game).GetMovablePlayerCount(recv)"
+	aliveTerms := map[string]bool{"pokerface.(*game).GetAlivePlayerCount(recv)": true}
+	movTerms := map[string]bool{"pokerface.(*game).GetMovablePlayerCount(recv)": true}
+	// a private helper that makes one pass over the players and hands back both counts: each
+	// result is classified by what its counter excludes (folded / folded or without chips)
+	for _, fn := range p.MethodsOf("pokerface", ea.gameImpl) {
+		if token.IsExported(fn.Name()) || fn.Signature.Params().Len() != 0 || fn.Signature.Results().Len() < 2 {
+			continue
+		}
+		for k := 0; k < fn.Signature.Results().Len(); k++ {
+			term := fmt.Sprintf("%s(recv)#%d", fnKey(fn), k)
+			switch counterRole(c, fn, k) {
+			case "alive":
+				aliveTerms[term] = true
+			case "movable":
+				movTerms[term] = true
+			}
+		}
+	}
 	aliveIs1 := func(v *Val, neg bool) bool {
-		return v.K == KAtom && v.At.Op == "eq" && v.Neg == neg && v.At.A.String() == alive+" - 1"
+		if !(v.K == KAtom && v.At.Op == "eq" && v.Neg == neg) {
+			return false
+		}
+		as := v.At.A.String()
+		for t := range aliveTerms {
+			if as == t+" - 1" {
+				return true
+			}
+		}
+		return false
+	}
+	movIs0 := func(v *Val, neg bool) bool {
+		return v.K == KAtom && v.At.Op == "eq" && v.Neg == neg && movTerms[v.At.A.String()]
 	}
 	// nextRound (the street sequencer): entries to further streets only under alive != 1
 	var seq *ssa.Function
@@ -210,6 +239,9 @@ func runC05Shortcuts(c *Ctx, ea *engineAnchors, eg *EventGraph) {
 		nw := 0
 		for _, cc := range ix.Info[fn].Calls {
 			for _, t := range ix.targets(fn, cc) {
+				if ix.Info[t] == nil {
+					continue // a generic instance or a synthetic wrapper without index entry
+				}
 				for _, w := range ix.Info[t].Writes {
 					if w.Key == "pokerface.Status.Round" {
 						nw++
@@ -275,7 +307,7 @@ func runC05Shortcuts(c *Ctx, ea *engineAnchors, eg *EventGraph) {
 				}
 			}
 			one := hasCond(ps, func(v *Val) bool { return aliveIs1(v, false) })
-			none := hasCond(ps, func(v *Val) bool { return v.K == KAtom && v.At.Op == "eq" && !v.Neg && v.At.A.String() == mov })
+			none := hasCond(ps, func(v *Val) bool { return movIs0(v, false) })
 			if one || none {
 				if walks || !closes {
 					bad = append(bad, "with one player alive / nobody movable the round is not closed at once: ["+ps.CondString()+"]")
@@ -285,7 +317,7 @@ func runC05Shortcuts(c *Ctx, ea *engineAnchors, eg *EventGraph) {
 			if walks {
 				nWalk++
 				if !hasCond(ps, func(v *Val) bool { return aliveIs1(v, true) }) || !hasCond(ps, func(v *Val) bool {
-					return v.K == KAtom && v.At.Op == "eq" && v.Neg && v.At.A.String() == mov
+					return movIs0(v, true)
 				}) {
 					bad = append(bad, "the seat walk is reached without the alive/movable tests: ["+ps.CondString()+"]")
 				}
@@ -329,8 +361,22 @@ func runC05Shortcuts(c *Ctx, ea *engineAnchors, eg *EventGraph) {
 			if preflop {
 				continue
 			}
-			few := hasCond(first, func(v *Val) bool { return ltIs(v, mov+" - 2") })
-			many := hasCond(first, func(v *Val) bool { return ltIs(v, "-"+mov+" + 1") })
+			few := hasCond(first, func(v *Val) bool {
+				for mov := range movTerms {
+					if ltIs(v, mov+" - 2") {
+						return true
+					}
+				}
+				return false
+			})
+			many := hasCond(first, func(v *Val) bool {
+				for mov := range movTerms {
+					if ltIs(v, "-"+mov+" + 1") {
+						return true
+					}
+				}
+				return false
+			})
 			switch {
 			case o.Kind == "emit" && o.Event == "GameEvent_ReadyRequested":
 				nReady++
@@ -357,8 +403,8 @@ func runC05Shortcuts(c *Ctx, ea *engineAnchors, eg *EventGraph) {
 			preflop := hasCond(first, func(v *Val) bool {
 				return v.K == KAtom && v.At.Op == "is" && !v.Neg && strings.Contains(v.At.String(), `"preflop"`)
 			})
-			none := hasCond(first, func(v *Val) bool { return v.K == KAtom && v.At.Op == "eq" && !v.Neg && v.At.A.String() == mov })
-			some := hasCond(first, func(v *Val) bool { return v.K == KAtom && v.At.Op == "eq" && v.Neg && v.At.A.String() == mov })
+			none := hasCond(first, func(v *Val) bool { return movIs0(v, false) })
+			some := hasCond(first, func(v *Val) bool { return movIs0(v, true) })
 			if !preflop {
 				continue
 			}
@@ -517,4 +563,123 @@ func runC05Counters(c *Ctx, ea *engineAnchors) {
 		}
 		c.check(len(bad) == 0, "counters", fnKey(fn), p.FnPos(fn), "counts exactly the players that are "+sp.desc+", over all players", "counter predicate wrong", uniq(bad, 3)...)
 	}
+}
+
+// counterRole classifies result k of fn, a parameterless private method: "alive" when it is the
+// number of players not folded, "movable" when it is the number not folded and with chips, ""
+// otherwise. The function must be one full pass over GameState.Players without early exit; the
+// result must be a counter of that loop starting at the number of players (counting down) or at 0
+// (counting up); the body table is evaluated on the fold x stack grid.
+func counterRole(c *Ctx, fn *ssa.Function, k int) string {
+	p := c.P
+	s := newSumm(p, 1)
+	loops := s.loops(fn)
+	if len(loops) != 1 {
+		return ""
+	}
+	l := loops[0]
+	ri := analyseRange(l)
+	if ri.Kind != "slice" || !ri.Full || len(l.Exits) != 1 || !loadsField(ri.Coll, "pokerface.GameState.Players") {
+		return ""
+	}
+	var counter *ssa.Phi
+	for _, b := range fn.Blocks {
+		if r, ok := b.Instrs[len(b.Instrs)-1].(*ssa.Return); ok {
+			if k >= len(r.Results) {
+				return ""
+			}
+			ph, isPhi := r.Results[k].(*ssa.Phi)
+			if !isPhi || ph.Block() != l.Header || (counter != nil && counter != ph) {
+				return ""
+			}
+			counter = ph
+		}
+	}
+	if counter == nil {
+		return ""
+	}
+	init, _ := phiInitStep(l, counter)
+	countDown := false
+	switch x := init.(type) {
+	case *ssa.Const:
+		if k0, ok := constInt(x); !ok || k0 != 0 {
+			return ""
+		}
+	case *ssa.Call:
+		if f := x.Common().StaticCallee(); f != nil && f.Name() == "GetPlayerCount" {
+			countDown = true
+		} else if b, isB := x.Common().Value.(*ssa.Builtin); isB && b.Name() == "len" && loadsField(x.Common().Args[0], "pokerface.GameState.Players") {
+			countDown = true
+		} else {
+			return ""
+		}
+	default:
+		return ""
+	}
+	body, cut := s.LoopBody(fn, l)
+	if cut != "" || len(body) == 0 {
+		return ""
+	}
+	iter := "iter:" + fn.Name() + "." + counter.Name()
+	ints, bools := tableVars(body)
+	var tFold string
+	for _, b := range bools {
+		if strings.HasSuffix(b, ".Fold") {
+			tFold = b
+		}
+	}
+	tStack := findTerm(ints, ".StackSize")
+	if tFold == "" {
+		return ""
+	}
+	isAlive, isMovable, okAll := true, true, true
+	enumGrid(ints, 0, 3, bools, nil, func(a Asg) bool {
+		row, err := selectBodyPath(body, a)
+		if err != "" || row == nil || row.End != "continue" {
+			okAll = false
+			return false
+		}
+		back := row.Store["backedge:"+counter.Name()]
+		if back == nil {
+			okAll = false
+			return false
+		}
+		d := back.asAff().add(affTerm(iter), -1)
+		if !d.isConst() {
+			okAll = false
+			return false
+		}
+		fold := a.B[tFold]
+		stack := int64(1)
+		if tStack != "" {
+			stack = a.I[tStack]
+		}
+		counted := d.C == 1
+		if countDown {
+			counted = d.C == 0
+			if d.C != 0 && d.C != -1 {
+				okAll = false
+				return false
+			}
+		} else if d.C != 0 && d.C != 1 {
+			okAll = false
+			return false
+		}
+		if counted != !fold {
+			isAlive = false
+		}
+		if counted != (!fold && stack != 0) {
+			isMovable = false
+		}
+		return true
+	})
+	switch {
+	case !okAll:
+		return ""
+	case isAlive:
+		return "alive"
+	case isMovable && tStack != "":
+		return "movable"
+	}
+	return ""
 }
